@@ -2,7 +2,7 @@
    inside service() before it removed its request) implies requests <> []; the
    unlocked flush of the I/O thread runs only while requests = []; hence the two
    never coexist (the "conditional discipline" handle_write relies on). *)
-From Coq Require Import List ZArith Bool Arith Lia ZifyBool.
+From Coq Require Import List ZArith Bool Arith Lia.
 From WV Require Import Lib.Conc Model.ChanFlow Proof.ChanFlow.
 Import ListNotations.
 Local Open Scope Z_scope.
@@ -35,11 +35,13 @@ Proof. unfold L1, init; cbn; repeat split; intros; try discriminate; lia. Qed.
 Ltac spec := repeat match goal with
   | H : ?A -> _, H' : ?A |- _ => specialize (H H')
   | H : true = true -> _ |- _ => specialize (H eq_refl)
+  | H : false = false -> _ |- _ => specialize (H eq_refl)
   | H : false = true -> _ |- _ => clear H
   end.
 Ltac conj := repeat match goal with H : _ /\ _ |- _ => destruct H end.
 Ltac fin1 := dk; unfold L1; unf; cbn; gifs; cbn; repeat split; intros; try discriminate; try assumption; spec; conj;
-  try discriminate; try assumption; try lia.
+  try discriminate; try assumption; b2p; subst; cbn in *; spec; conj; try assumption; try zl;
+  try (match goal with |- ?b = false => destruct b eqn:?; [exfalso; spec; conj; zl | reflexivity] end).
 
 Lemma L1_step_io p s r res s' l : L1 p s -> step_io p s r res = Some (s', l) -> L1 p s'.
 Proof.
